@@ -256,4 +256,43 @@ def CCtx.runU (c : CCtx D L) : List COpU → Outcome (CCtx D L × List Int)
 
 end
 
+/-! ### a concrete environment: the user dictionary as a list of (syllables, phrase) pairs
+
+Used by the correspondence driver (`Driver/CApiUser.lean`: the record carries what the real context enumerates, the
+model recomputes return value and new enumeration) and as the witness that the hypotheses of `Props/C08CApi.lean` are
+satisfiable.  No system dictionary (the user-phrase calls consult the user layer only; the layered lookup inside
+`learn_phrase` only chooses between `add_phrase` and `update_phrase`, which store the same key). -/
+namespace CApiUser
+
+abbrev ListDict := List (List Nat × Text)
+
+def listLookup (d : ListDict) (k : List Nat) : List Phrase :=
+  (d.filter (fun e => e.1 == k)).map fun e => { text := e.2, freq := 1 }
+
+def listEnv : Env ListDict Nat where
+  lookupAll d k _ := listLookup d k
+  userLookupAll d k _ := listLookup d k
+  addPhrase d k ph := if ph.text.isEmpty then some d else if d.contains (k, ph.text) then none else some (d ++ [(k, ph.text)])
+  updatePhrase d k ph _ _ := if ph.text.isEmpty || d.contains (k, ph.text) then d else d ++ [(k, ph.text)]
+  removePhrase d k t := d.filter (fun e => !(e == (k, t)))
+  reopenFlush d := d
+  convert _ _ _ := .ok [[]]
+  estimate _ f _ := .ok f
+  keyPress l _ := (.keyError, l)
+  fuzzyKeyPress l _ := (.keyError, l)
+  removeLast _ := 0
+  clearSyl _ := 0
+  sylIsEmpty l := l == 0
+  read l := l
+  altSyllables _ _ := []
+
+def listUEnv : UEnv ListDict Nat where
+  entries d := d.map fun e => (e.1, { text := e.2, freq := 1 })
+  layoutOf _ := 0
+
+/-- a fresh context (state Entering, empty buffers) over the user dictionary `d` -/
+def listCtx (d : ListDict) : CCtx ListDict Nat := { editor := { shared := { syl := 0, dict := d } } }
+
+end CApiUser
+
 end Chewing
